@@ -1,9 +1,9 @@
 #!/usr/bin/env python3
-"""Assemble /verif/seeded/<id>/ from /tmp/seedv/<id>/ (patch, demo, notes) + verification + detection records."""
+"""Assemble /verif/seeded/<id>/ from /tmp/seedstage/<id>/ (patch, demo, notes) + verification + detection records."""
 import json, os, shutil, sys
 det = json.load(open('/verif/tools/seed_detection.json'))
 ver = {}
-for l in open('/tmp/seedv/results.jsonl'):
+for l in open('/tmp/seedstage/results.jsonl'):
     l = l.strip()
     if l.startswith('{'):
         try:
@@ -12,6 +12,8 @@ for l in open('/tmp/seedv/results.jsonl'):
         except Exception:
             pass
 for sid, d in det.items():
+    if os.path.exists(f'/verif/seeded/{sid}/meta.json') and not os.path.exists(f'/tmp/seedstage/{sid}/patch.diff'):
+        continue
     v = ver.get(sid)
     if not v or not v.get('patch_applies') or 'tests passed, 0 tests failed out of 153' not in v.get('suite', '') \
             or v.get('demo_exit_unchanged') != 0 or v.get('demo_exit_seeded') in (0, -1):
@@ -20,7 +22,7 @@ for sid, d in det.items():
     dst = f'/verif/seeded/{sid}'
     os.makedirs(dst, exist_ok=True)
     for f in ('patch.diff', 'demo.cpp', 'notes.md', 'demo_flags.txt'):
-        src = f'/tmp/seedv/{sid}/{f}'
+        src = f'/tmp/seedstage/{sid}/{f}'
         if os.path.exists(src):
             shutil.copy(src, dst)
     meta = {
@@ -35,7 +37,7 @@ for sid, d in det.items():
             'demo_message': v.get('demo_message', ''),
             'how': 'tools/verify_seed.sh (git worktree under /tmp, cmake+ctest, g++ demo.cpp; worktree removed afterwards)'},
         'checks_run': 'tools/try_seed.sh patch.diff quick <Cxx> (git -C /repo apply; ./check; git -C /repo checkout -- .)',
-        'detected_by': d['caught_by'], 'first_attempt': d['first_attempt'], 'shortest_witness': d.get('witness', ''),
+        'detected_by': d['caught_by'], 'superseded_by_fix': d.get('superseded_by_fix', ''), 'first_attempt': d['first_attempt'], 'shortest_witness': d.get('witness', ''),
     }
     json.dump(meta, open(f'{dst}/meta.json', 'w'), indent=1)
     print('saved', sid)
